@@ -1,6 +1,14 @@
 //! One monitor per property.
 pub mod c01;
 pub mod c02;
+pub mod c03;
+pub mod c04;
+pub mod c05;
+pub mod c11;
+pub mod c12;
+pub mod c13;
+pub mod c14;
+pub mod common;
 pub mod c16;
 pub mod c18;
 
@@ -10,6 +18,15 @@ pub fn run(property: &str, ctx: &Ctx) -> Option<Report> {
     Some(match property {
         "C01" => c01::run(ctx),
         "C02" => c02::run(ctx),
+        "C03" => c03::run(ctx),
+        "C04" => c04::run(ctx),
+        "C05" => c05::run_which(ctx, c05::Which::C05),
+        "C06" => c05::run_which(ctx, c05::Which::C06),
+        "C17" => c05::run_which(ctx, c05::Which::C17),
+        "C11" => c11::run(ctx),
+        "C12" => c12::run(ctx),
+        "C13" => c13::run(ctx),
+        "C14" => c14::run(ctx),
         "C16" => c16::run(ctx),
         "C18" => c18::run(ctx),
         _ => return None,
